@@ -643,7 +643,7 @@ func (ip *Interp) eval(e Expr, sc *scope) (Value, error) {
 			return nil, err
 		}
 		if x.Yield != "" {
-			if err := ip.declare(sc, x.Yield, v, true, "yield"); err != nil {
+			if err := ip.declare(sc, x.Yield, DeepCopy(v), true, "yield"); err != nil {
 				return nil, err
 			}
 		}
@@ -676,7 +676,7 @@ func (ip *Interp) eval(e Expr, sc *scope) (Value, error) {
 			}
 		}
 		if x.Yield != "" {
-			if err := ip.declare(sc, x.Yield, cur, true, "yield"); err != nil {
+			if err := ip.declare(sc, x.Yield, DeepCopy(cur), true, "yield"); err != nil {
 				return nil, err
 			}
 		}
